@@ -6,7 +6,7 @@ A crash is a violation: the artifact is copied to /verif/replays/ and a VIOLATIO
 The numbers are merged into the evidence file the proptest tier has just written."""
 import json, os, re, shutil, subprocess, sys, tempfile, time, glob
 pid, tier = sys.argv[1], sys.argv[2]
-ROOT = "/verif"
+ROOT = os.environ.get("VERIF_ROOT", "/verif")
 target = {"C01": "resp_model", "C02": "resp_model", "C05": "resp_total"}[pid]
 seed = int(os.environ.get("VERIF_SEED", "0") or 0)
 env = dict(os.environ, CARGO_NET_OFFLINE="true")
